@@ -138,8 +138,8 @@ func (o *wout) violation(key, what string, replay any) {
 	b, _ := json.Marshal(replay)
 	o.line("V", key, what, string(b))
 }
-func (o *wout) outcome(k string)      { o.line("O", k) }
-func (o *wout) count(s, t, e int64)   { o.line("N", fmt.Sprint(s), fmt.Sprint(t), fmt.Sprint(e)) }
-func (o *wout) sample(v any)          { b, _ := json.Marshal(v); o.line("S", string(b)) }
-func (o *wout) extra(s string)        { o.line("X", s) }
-func (o *wout) flush()                { o.mu.Lock(); o.w.Flush(); o.mu.Unlock() }
+func (o *wout) outcome(k string)    { o.line("O", k) }
+func (o *wout) count(s, t, e int64) { o.line("N", fmt.Sprint(s), fmt.Sprint(t), fmt.Sprint(e)) }
+func (o *wout) sample(v any)        { b, _ := json.Marshal(v); o.line("S", string(b)) }
+func (o *wout) extra(s string)      { o.line("X", s) }
+func (o *wout) flush()              { o.mu.Lock(); o.w.Flush(); o.mu.Unlock() }
